@@ -3,10 +3,12 @@ package w
 import (
 	"encoding/json"
 	"fmt"
+	"strings"
 	"testing"
 	"testing/synctest"
 	"time"
 
+	"verif/h/mongofake"
 	"verif/h/pt"
 )
 
@@ -23,6 +25,8 @@ func c08Scenarios() []c08Scenario {
 	inc := func(r int) pt.Action { return pt.Action{Op: "inc", R: r, P: 1, T: "k1|"} }
 	ins := func(r, p int) pt.Action { return pt.Action{Op: "ins1", R: r, P: p, V: "p", T: "k1|"} }
 	syn := func(r int) pt.Action { return pt.Action{Op: "sync", R: r} }
+	dput := func(r int, k, v string) pt.Action { return pt.Action{Op: "dput", R: r, K: k, V: v, T: "k1|"} }
+	put := func(r int, k, v string) pt.Action { return pt.Action{Op: "put", R: r, K: k, V: v, T: "k1|"} }
 	open := func(r int, mode string) pt.Action { return pt.Action{Op: "open", R: r, T: "k1", K: mode} }
 	return []c08Scenario{
 		{"counter-soc", E2Params{Clients: 2, Type: "counter", Tolerant: true},
@@ -31,18 +35,31 @@ func c08Scenarios() []c08Scenario {
 			[]pt.Action{open(0, "create"), ins(0, 0), ins(0, 1), syn(0), open(1, "subscribe"), syn(1), ins(1, 0), {Op: "del1", R: 0, P: 0, T: "k1|"}, syn(1), syn(0), syn(1)}},
 		{"counter-pull-only", E2Params{Clients: 2, Type: "counter", Tolerant: true, Prefix: "joined"},
 			[]pt.Action{inc(0), syn(0), syn(1), syn(1), inc(1), syn(1), syn(0)}},
+		{"doc-tx", E2Params{Clients: 2, Type: "doc", Tolerant: true},
+			[]pt.Action{open(0, "soc"), dput(0, "a", "o"),
+				{Op: "tx", R: 0, T: "k1|", Sub: []pt.Action{{Op: "dput", K: "b", V: "p"}, {Op: "dput", K: "c", V: "a"}}},
+				syn(0), open(1, "subscribe"), syn(1), dput(1, "d", "p"), {Op: "ddel", R: 0, K: "a", T: "k1|"}, syn(1), syn(0), syn(1)}},
+		{"map-3c", E2Params{Clients: 3, Type: "map", Tolerant: true},
+			[]pt.Action{open(0, "create"), put(0, "x", "p"), syn(0), open(1, "subscribe"), open(2, "soc"), syn(1), syn(2),
+				put(1, "x", "o"), {Op: "rem", R: 2, K: "x", T: "k1|"}, syn(2), syn(1), syn(0), syn(2)}},
 	}
 }
 
 type c08Case struct {
-	Scenario string `json:"scenario"`
-	Kind     string `json:"kind"` // fail | crash
-	K        int    `json:"k"`
-	K2       int    `json:"k2,omitempty"` // second fault (pairs), same kind
+	Scenario string            `json:"scenario"`
+	Faults   []mongofake.Fault `json:"faults,omitempty"`
 }
 
-// c08Run executes a scenario with a fault plan; k == 0 runs fault-free and returns the number of
-// commands the scenario issues.
+func (cs c08Case) kinds() string {
+	var ks []string
+	for _, f := range cs.Faults {
+		ks = append(ks, f.Kind)
+	}
+	return strings.Join(ks, "+")
+}
+
+// c08Run executes a scenario with a fault plan; an empty plan runs fault-free and returns the number
+// of commands the scenario issues.
 func c08Run(t *testing.T, sc c08Scenario, cs c08Case) (ncmd int, outcome string, v *pt.Violation) {
 	synctest.Test(t, func(t *testing.T) {
 		pp, _ := json.Marshal(sc.params)
@@ -53,71 +70,67 @@ func c08Run(t *testing.T, sc c08Scenario, cs c08Case) (ncmd int, outcome string,
 			return
 		}
 		base := m.sys.DB.NumCommands()
-		arm := func(k int) {
-			if k <= 0 {
-				return
-			}
-			if cs.Kind == "crash" {
-				m.sys.DB.CrashAt = base + k
-			} else {
-				m.sys.DB.FailAt = base + k
-			}
+		m.sys.DB.SetPlan(cs.Faults)
+		tag := ""
+		if len(cs.Faults) > 0 {
+			tag = strings.TrimSuffix(cs.Faults[0].Kind, "b")
 		}
-		arm(cs.K)
-		pendingSecond := cs.K2
 		restarts := 0
 		recoverServer := func() *pt.Violation {
-			if !m.sys.DB.Dead() {
-				return nil
+			if m.sys.DB.Dead() {
+				// the server process is gone: a new one starts over the surviving database (the rest of
+				// the plan counts from the restart)
+				restarts++
+				m.sys.CrashServer()
+				m.sys.DB.Restart()
+				time.Sleep(time.Second)
 			}
-			// the server process is gone: a new one starts over the surviving database
-			restarts++
-			m.sys.StopServer()
-			m.sys.DB.Restart()
-			time.Sleep(time.Second)
+			struck := m.sys.DB.Struck
 			if err := m.sys.StartServer(); err != nil {
+				if m.sys.DB.Dead() || m.sys.DB.Struck != struck {
+					return nil // the next fault of the plan struck the starting server: it is started again
+				}
 				return viol("C08:server-does-not-restart", "after %v the server cannot start over the surviving database: %v", cs, err)
-			}
-			if pendingSecond > 0 {
-				base = m.sys.DB.NumCommands() - cs.K // keep numbering relative to the scenario start
-				arm(pendingSecond)
-				pendingSecond = 0
 			}
 			return nil
 		}
 		for _, a := range sc.actions {
+			for i := 0; i < 5 && (m.sys.DB.Dead() || m.sys.Svc() == nil); i++ {
+				if vv := recoverServer(); vv != nil {
+					v = vv
+					return
+				}
+			}
 			if vv := safeApply(m, a); vv != nil {
-				vv.Sig = vv.Sig + ":during-" + cs.Kind
+				vv.Sig = vv.Sig + ":during-" + tag
 				v = vv
 				return
 			}
+		}
+		m.sys.DB.SetPlan(nil)
+		for i := 0; i < 5 && (m.sys.DB.Dead() || m.sys.Svc() == nil); i++ {
 			if vv := recoverServer(); vv != nil {
 				v = vv
 				return
 			}
-			if cs.Kind == "fail" && pendingSecond > 0 && m.sys.DB.NumCommands() >= base+cs.K {
-				m.sys.DB.FailAt = base + pendingSecond
-				pendingSecond = 0
-			}
 		}
 		ncmd = m.sys.DB.NumCommands() - base
 		// no more faults: every client retries until quiescence
-		m.sys.DB.FailAt, m.sys.DB.CrashAt = 0, 0
 		for _, o := range []string{"converge", "applied", "issued", "reference", "log"} {
 			m.oracles[o] = true
 		}
 		if vv := safeClose(m); vv != nil {
-			vv.Sig = vv.Sig + ":after-" + cs.Kind
+			vv.Sig = vv.Sig + ":after-" + tag
 			v = vv
 			return
 		}
 		if vv := m.checkLog(); vv != nil {
-			vv.Sig = vv.Sig + ":after-" + cs.Kind
+			vv.Sig = vv.Sig + ":after-" + tag
 			v = vv
 			return
 		}
 		if vv := m.checkSnapshots(); vv != nil {
-			vv.Sig = vv.Sig + ":after-" + cs.Kind
+			vv.Sig = vv.Sig + ":after-" + tag
 			v = vv
 			return
 		}
@@ -128,15 +141,49 @@ func c08Run(t *testing.T, sc c08Scenario, cs c08Case) (ncmd int, outcome string,
 				errs += len(e)
 			}
 		}
-		outcome = fmt.Sprintf("restarts=%d client-errors=%d cmds=%d", restarts, errs, ncmd)
+		outcome = fmt.Sprintf("struck=%d/%d restarts=%d client-errors=%d cmds=%d", m.sys.DB.Struck, len(cs.Faults), restarts, errs, ncmd)
 	})
 	return
+}
+
+// c08Cases enumerates the fault plans of a scenario issuing n commands: every single fault; every pair
+// (both kinds each, second fault within `win2` commands of the first strike / restart); every triple of
+// equal kinds within `win3`.
+func c08Cases(name string, n int, kinds []string, win2, win3 int) []c08Case {
+	var cases []c08Case
+	F := func(k string, a int) mongofake.Fault { return mongofake.Fault{Kind: k, After: a} }
+	for _, k1 := range kinds {
+		for a := 1; a <= n; a++ {
+			cases = append(cases, c08Case{name, []mongofake.Fault{F(k1, a)}})
+		}
+	}
+	for _, k1 := range kinds {
+		for _, k2 := range kinds {
+			for a := 1; a <= n; a++ {
+				for b := 1; b <= win2; b++ {
+					cases = append(cases, c08Case{name, []mongofake.Fault{F(k1, a), F(k2, b)}})
+				}
+			}
+		}
+	}
+	for _, k1 := range kinds {
+		for a := 1; a <= n; a++ {
+			for b := 1; b <= win3; b++ {
+				for c := 1; c <= win3; c++ {
+					cases = append(cases, c08Case{name, []mongofake.Fault{F(k1, a), F(k1, b), F(k1, c)}})
+				}
+			}
+		}
+	}
+	return cases
 }
 
 func init() {
 	jobKinds["dbfault"] = func(job *pt.Job, emit func(pt.Line, bool)) {
 		var p struct {
-			Pairs bool `json:"pairs"`
+			Win2      int      `json:"win2"`
+			Win3      int      `json:"win3"`
+			Scenarios []string `json:"scenarios"`
 		}
 		json.Unmarshal(job.Params, &p)
 		var ex struct {
@@ -148,9 +195,11 @@ func init() {
 			skip[k] = true
 		}
 		var cases []c08Case
-		scs := c08Scenarios()
 		byName := map[string]c08Scenario{}
-		for si, sc := range scs {
+		for si, sc := range c08Scenarios() {
+			if len(p.Scenarios) > 0 && !contains(p.Scenarios, sc.name) {
+				continue
+			}
 			byName[sc.name] = sc
 			n, _, v := c08Run(curT, sc, c08Case{Scenario: sc.name})
 			if v != nil {
@@ -161,20 +210,7 @@ func init() {
 				}
 				continue
 			}
-			for _, kind := range []string{"fail", "crash"} {
-				for k := 1; k <= n; k++ {
-					cases = append(cases, c08Case{Scenario: sc.name, Kind: kind, K: k})
-				}
-			}
-			if p.Pairs && si < 2 {
-				for _, kind := range []string{"fail", "crash"} {
-					for k := 1; k <= n; k++ {
-						for k2 := k + 1; k2 <= n && k2 <= k+12; k2++ {
-							cases = append(cases, c08Case{Scenario: sc.name, Kind: kind, K: k, K2: k2})
-						}
-					}
-				}
-			}
+			cases = append(cases, c08Cases(sc.name, n, []string{"fail", "crash", "crashb"}, p.Win2, p.Win3)...)
 		}
 		for i, cs := range cases {
 			if (job.Shards > 0 && i%job.Shards != job.Shard) || skip[i] {
@@ -185,7 +221,7 @@ func init() {
 			emit(pt.Line{Start: &ii, I: i, Info: eb}, true)
 			curCase = i
 			_, out, v := c08Run(curT, byName[cs.Scenario], cs)
-			b, _ := json.Marshal(pt.CaseOut{Name: fmt.Sprintf("%s/%s", cs.Scenario, cs.Kind), Outcome: out, Transitions: len(byName[cs.Scenario].actions), Viol: v, Extra: eb})
+			b, _ := json.Marshal(pt.CaseOut{Name: fmt.Sprintf("%s/%s", cs.Scenario, cs.kinds()), Outcome: out, Transitions: len(byName[cs.Scenario].actions), Viol: v, Extra: eb})
 			emit(pt.Line{I: i, Done: true, Info: b}, false)
 		}
 		b, _ := json.Marshal(pt.ShardInfo{Exhaustive: true})
@@ -202,4 +238,13 @@ func init() {
 			}
 		}
 	}
+}
+
+func contains(l []string, s string) bool {
+	for _, x := range l {
+		if x == s {
+			return true
+		}
+	}
+	return false
 }
